@@ -272,6 +272,7 @@ func runC12(c *Ctx) {
 	}
 
 	c12CopyMode(c, pk)
+	c12Extra(c, pk)
 }
 
 // c12AppendOnly: struct fields of map type whose every write is m[k] = append(m[k], …) and a reader that errors on !ok.
